@@ -75,6 +75,10 @@ func lrQueue(comp string, ph []lrPhase, fail lrFail) {
 				}
 				gone = append(gone, model[0])
 				model = model[1:]
+			case "Clear":
+				q.Clear()
+				gone = append(gone, model...)
+				model = nil
 			}
 		}
 	}
@@ -261,6 +265,55 @@ func lrLRU(capacity int, ph []lrPhase, fail lrFail) {
 					return
 				}
 				touch(i)
+			case p.Op == "Flush":
+				c.Flush()
+				model = nil
+				if _, _, ok := c.GetOldest(); ok {
+					fail(comp+".GetOldest/long-run/reports-an-entry-in-an-empty-cache", "GetOldest reports an entry right after Flush")
+					return
+				}
+				if _, _, ok := c.GetYoungest(); ok {
+					fail(comp+".GetYoungest/long-run/reports-an-entry-in-an-empty-cache", "GetYoungest reports an entry right after Flush")
+					return
+				}
+			case p.Op == "RemoveOldest" || p.Op == "RemoveYoungest" || p.Op == "RemoveKey":
+				var k, v int
+				var ok bool
+				want := -1
+				if len(model) > 0 {
+					want = model[len(model)-1]
+					if p.Op != "RemoveOldest" {
+						want = model[0]
+					}
+				}
+				switch p.Op {
+				case "RemoveOldest":
+					k, v, ok = c.RemoveOldest()
+				case "RemoveYoungest":
+					k, v, ok = c.RemoveYoungest()
+				default:
+					if want < 0 {
+						continue
+					}
+					k = want
+					v, ok = c.Remove(want)
+				}
+				if want < 0 {
+					if ok || k != 0 || v != 0 {
+						fail(comp+"."+p.Op+"/long-run/empty-cache-reports-an-entry", "%s on an empty cache = (%d,%d,%t)", p.Op, k, v, ok)
+						return
+					}
+					continue
+				}
+				if !ok || k != want || v != want*10 {
+					fail(comp+"."+p.Op+"/long-run/wrong-entry", "%s = (%d,%d,%t), want (%d,%d,true) (count before %d)", p.Op, k, v, ok, want, want*10, len(model))
+					return
+				}
+				if p.Op == "RemoveOldest" {
+					model = model[:len(model)-1]
+				} else {
+					model = model[1:]
+				}
 			case p.Op == "Cycle":
 				k := next
 				next++
@@ -305,6 +358,16 @@ func lrHeap(cmp string, ph []lrPhase, fail lrFail) {
 	var model []hE
 	seq := 0
 	comp := "Heap"
+	// heap.Delete on a heap of >= 4 elements may leave an array that is not a heap (recorded finding,
+	// pinned by the suite): from then on a failure of ORDER is that finding; sizes, the multiset and
+	// what Delete reports are judged as always
+	tainted := false
+	orderKey := func(k string) string {
+		if tainted {
+			return "Heap.order/after-Delete(held,size=>=4)/pop-sequence-out-of-order"
+		}
+		return k
+	}
 	for _, p := range ph {
 		for i := 0; i < p.N; i++ {
 			switch p.Op {
@@ -323,7 +386,7 @@ func lrHeap(cmp string, ph []lrPhase, fail lrFail) {
 						bi = j
 					}
 					if less(m, got) {
-						fail(comp+".Pop/long-run/not-extremal", "Pop returned %v although %v precedes it under %s (size %d)", got, m, cmp, len(model))
+						fail(orderKey(comp+".Pop/long-run/not-extremal"), "Pop returned %v although %v precedes it under %s (size %d)", got, m, cmp, len(model))
 						return
 					}
 				}
@@ -332,6 +395,27 @@ func lrHeap(cmp string, ph []lrPhase, fail lrFail) {
 					return
 				}
 				model = append(model[:bi], model[bi+1:]...)
+			case "Clear":
+				h.Clear()
+				model = nil
+				tainted = false
+			case "DeleteOldest", "DeleteNewest": // a successful Delete of an element known to be held
+				if len(model) == 0 {
+					continue
+				}
+				j := 0
+				if p.Op == "DeleteNewest" {
+					j = len(model) - 1
+				}
+				if len(model) >= 4 {
+					tainted = true
+				}
+				ok, err := h.Delete(model[j])
+				if !ok || err != nil {
+					fail(comp+".Delete/long-run/held-element-not-deleted", "Delete(%v) = (%t, %v) although the element is held (size %d)", model[j], ok, err, len(model))
+					return
+				}
+				model = append(model[:j:j], model[j+1:]...)
 			default:
 				seq++
 				var k int
@@ -356,7 +440,11 @@ func lrHeap(cmp string, ph []lrPhase, fail lrFail) {
 		}
 	}
 	if msg := drainCheck(h, less, model); msg != "" {
-		fail(comp+".order/long-run/pop-sequence-"+drainCls(msg), "%s", msg)
+		k := comp + ".order/long-run/pop-sequence-" + drainCls(msg)
+		if drainCls(msg) == "out-of-order" {
+			k = orderKey(k)
+		}
+		fail(k, "%s", msg)
 	}
 }
 
@@ -416,6 +504,16 @@ func init() {
 		for _, comp := range []string{"Queue", "LQueue"} {
 			comp := comp
 			lrRun(rep, comp, lrTriples("Enqueue", "Dequeue", "Enqueue", L, L, L, true), func(ph []lrPhase, fail lrFail) { lrQueue(comp, ph, fail) })
+			// a reused instance: grown, cleared, refilled a little, drained (what is kept across Clear?)
+			var hs [][]lrPhase
+			for n := 0; n <= 2*L; n += 1 + n/24 {
+				for m := 0; m <= 12; m++ {
+					for _, k := range []int{0, 1, m, m + 1} {
+						hs = append(hs, []lrPhase{{"Enqueue", n}, {"Clear", 1}, {"Enqueue", m}, {"Dequeue", k}, {"Enqueue", 2}})
+					}
+				}
+			}
+			lrRun(rep, comp, hs, func(ph []lrPhase, fail lrFail) { lrQueue(comp, ph, fail) })
 		}
 		rep.Set("long_run_family", fmt.Sprintf("every history Enqueue^n Dequeue^k Enqueue^m with n,m <= %d, k <= n+1, both implementations", L))
 	}
@@ -476,6 +574,19 @@ func init() {
 			}
 			lrRun(rep, fmt.Sprintf("LRU(cap=%d)", capacity), hs, func(ph []lrPhase, fail lrFail) { lrLRU(capacity, ph, fail) })
 		}
+		// large capacities: fill to n, then drain by one of the three removals (every returned entry
+		// compared), or flush and look at the empty cache, then use it again
+		for _, capacity := range []int{40, 130, 260} {
+			capacity := capacity
+			var hs [][]lrPhase
+			for n := 0; n <= capacity+2; n += 1 + n/20 {
+				for _, rm := range []string{"RemoveOldest", "RemoveYoungest", "RemoveKey"} {
+					hs = append(hs, []lrPhase{{"Add", n}, {rm, n + 1}, {"Add", 3}, {rm, 2}})
+				}
+				hs = append(hs, []lrPhase{{"Add", n}, {"Flush", 1}, {"Add", 3}, {"RemoveOldest", 1}, {"Flush", 1}, {"RemoveYoungest", 1}})
+			}
+			lrRun(rep, fmt.Sprintf("LRU(cap=%d)", capacity), hs, func(ph []lrPhase, fail lrFail) { lrLRU(capacity, ph, fail) })
+		}
 		rep.Set("long_run_family", fmt.Sprintf("capacity 1..3: fill, one live key looked up g <= %d times in a row, another <= 2 times, two more Adds; up to %d consecutive Adds of fresh keys; up to %d Add+Remove cycles", G, A, A))
 	}
 	prev3 := extras["C03"]
@@ -498,6 +609,25 @@ func init() {
 								hs = append(hs, []lrPhase{{shape, n}, {"Pop", k}, {shape2, m}})
 							}
 						}
+					}
+				}
+			}
+			// a reused instance: grown to n, cleared (or drained), refilled with a few, then removals --
+			// whatever a removal assumes about the relation between length and capacity
+			for _, shape := range []string{"PushAsc", "PushDesc"} {
+				for n := 0; n <= 3*L; n += 1 + n/12 {
+					for m := 0; m <= 10; m++ {
+						for _, rm := range []string{"Pop", "DeleteOldest", "DeleteNewest"} {
+							for _, k := range []int{1, 2, m + 1} {
+								hs = append(hs, []lrPhase{{shape, n}, {"Clear", 1}, {"PushZig", m}, {rm, k}, {"PushAsc", 2}})
+							}
+						}
+					}
+				}
+				// removals by Delete while shrinking from n
+				for n := 0; n <= L; n += 1 + n/16 {
+					for k := 0; k <= n+1; k += 1 + k/8 {
+						hs = append(hs, []lrPhase{{shape, n}, {"DeleteOldest", k}, {"PushDesc", 3}}, []lrPhase{{shape, n}, {"DeleteNewest", k}, {"Pop", 2}})
 					}
 				}
 			}
